@@ -545,7 +545,7 @@ func (a *Agent) handleUDPOpenAck(peerID identity.AgentID, frame *protocol.Frame)
 
 	// Check if this is a relay response. Relay entries are immutable once
 	// inserted, so reading fields after LookupDownstream returns is safe.
-	if relay := a.udpRelay.LookupDownstream(frame.StreamID); relay != nil && peerID == relay.DownstreamPeer {
+	if relay := a.udpRelay.LookupDownstreamFrom(frame.StreamID, peerID); relay != nil && peerID == relay.DownstreamPeer {
 		a.logger.Debug("relaying UDP_OPEN_ACK upstream",
 			logging.KeyStreamID, relay.UpstreamID,
 			"upstream_peer", relay.UpstreamPeer.ShortString())
@@ -711,7 +711,7 @@ func (a *Agent) handleUDPDatagram(peerID identity.AgentID, frame *protocol.Frame
 	// Check if this is a relay. Relay entries are immutable once inserted,
 	// so reading entry fields after LookupBoth returns is safe even though
 	// the entry could be removed concurrently.
-	relayUp, relayDown := a.udpRelay.LookupBoth(frame.StreamID)
+	relayUp, relayDown := a.udpRelay.LookupBoth(frame.StreamID, peerID)
 
 	if relayUp != nil && peerID == relayUp.UpstreamPeer {
 		// Forward downstream
